@@ -43,3 +43,28 @@ Theorem C10_varint_proper_prefix_fails :
   forall (n : N) (j : nat), (j < length (varint n))%nat -> varint_dec (firstn j (varint n)) = None.
 Proof. exact varint_proper_prefix. Qed.
 Print Assumptions C10_varint_proper_prefix_fails.
+
+(* ---- without the [readable] premise: well-formed frames (WireRT) ---- *)
+From PJ.Model Require Import Spec.
+From PJ.Proofs Require Import WireRT BytesE2E.
+
+Theorem C10_cut_inside_a_frame_wf :
+  forall (fs1 : list frame) (f : frame) (j : nat),
+    Forall sendable fs1 -> sendable f -> (0 < j < length (write_delimited1 f))%nat ->
+    read_frames (write_delimited fs1 ++ firstn j (write_delimited1 f)) = (fs1, FiError).
+Proof. exact read_frames_truncated_wf. Qed.
+Print Assumptions C10_cut_inside_a_frame_wf.
+
+(* The whole parser on a truncated valid stream: cut anywhere strictly inside a frame that follows
+   the options frame, the parser yields exactly the events of the frames wholly delivered -- a prefix
+   of the stream's events -- one result per delivered frame, and then raises a decode error. *)
+Theorem C10_truncated_valid_stream :
+  forall (fs1 fs2 : list frame) (f : frame) (j : nat) (evs : list event) (grouped : bool),
+    run_frames (fs1 ++ f :: fs2) = Valid evs -> Forall small fs1 -> small f ->
+    flat_map f_rows fs1 <> [] ->
+    (match fs1 with g :: _ => (f_rows g = [] /\ f_meta g = []) \/ f_rows g <> [] | [] => True end) ->
+    (0 < j < length (write_delimited1 f))%nat ->
+    let r := parse_stream Generic grouped false (write_delimited fs1 ++ firstn j (write_delimited1 f)) in
+    exists later, evs = flat_events r ++ later /\ pr_end r = PRaise DecodeErr /\ length (pr_frames r) = length fs1.
+Proof. exact truncated_valid_stream. Qed.
+Print Assumptions C10_truncated_valid_stream.
